@@ -15,9 +15,25 @@ once on the real ebpfcat code:
   the real `EBPF.load()` and executed by the independent interpreter.
 
 Every transition is judged locally by a reference model (independent 64-bit
-cells; a plain dict of packed little-endian tuples).  A deterministic subset
-of configurations runs the same edges unpatched on the real kernel and must
+cells; a plain dict of packed tuples).  A deterministic subset of
+configurations runs the same edges unpatched on the real kernel and must
 give the same results.
+
+Python-side Dict operations include those that first *collect* what the
+iteration hands out (list(d), list(d.keys()), sorted(d), list(d.items()))
+and only then use it (compare, look every key up, delete / pop every key).
+Formats with their own byte order ('>H', '!i', '<Q' ...) are enumerated for
+Dict key / value members and for hash-map variables; for the latter only
+values are judged (what either side wrote must be read back by both), not
+the layout of the cell.
+
+A second search runs several program instances in one process (two and three
+instances of one program class, two classes built from the same declaration,
+an instance that was close()d next to a later one, an instance created after
+an earlier one was used, closed and garbage-collected): breadth-first over
+the interleavings of a reduced operation alphabet, a state being the tuple of
+the instances' map contents; every instance has its own reference model and
+no operation may change another instance's map.
 """
 import contextlib
 import gc
@@ -32,16 +48,26 @@ from harness.c08_arraymap import real_kernel
 
 PROP = "C09"
 LEVEL = "model_checking"
-RULE = ("configurations = hash-map variable sets (formats I i Q q B h, "
-        "defaults 0 5 -1, 1-3 variables) and Dict declarations (packed "
-        "Structure member lists over sizes 1/2/4/8 for key and value, size "
-        "2/31, lru on/off); per configuration a breadth-first search over "
-        "operation sequences from the freshly loaded program up to the depth "
-        "bound, deduplicated on the map content; every edge (state, "
-        "operation) is executed on the real code and compared with the "
-        "reference model; an edge is non-trivial when the operation was "
-        "accepted by the library and had an observable result; distinct = "
-        "distinct (configuration, state, operation)")
+RULE = ("configurations = hash-map variable sets (formats I i Q q B h and, "
+        "judged on values only, >H >I !h <I >q <Q !B >i <h; defaults 0 5 -1, "
+        "1-3 variables) and Dict declarations (packed Structure member lists "
+        "over sizes 1/2/4/8 for key and value, plus declarations whose "
+        "members carry their own byte order, size 2/31, lru on/off); per "
+        "configuration a breadth-first search over operation sequences "
+        "(Python operations including collect-then-use iterations: list, "
+        "keys, sorted, items, look up / delete / pop every listed key; "
+        "program operations) from the freshly loaded program up to the depth "
+        "bound, deduplicated on the map content; plus, for a few "
+        "configurations x six instance plans (two / three instances of one "
+        "class, two classes, closed first, reborn after close + garbage "
+        "collection, dropped), a breadth-first search over the interleaved "
+        "operations of all instances alive, a state being the tuple of their "
+        "map contents; every edge (state, operation) is executed on the real "
+        "code and compared with the reference model of the instance acted "
+        "on, all other instances must stay as they were; an edge is "
+        "non-trivial when the operation was accepted by the library and had "
+        "an observable result; distinct = distinct (configuration [, plan], "
+        "state, [instance,] operation)")
 
 M64 = (1 << 64) - 1
 HDR = 16
@@ -100,10 +126,8 @@ class RealBackend:
     def run(self, fd, pkt):
         return kern.test_run(fd, bytes(pkt))
 
-    def _sizes(self, mapfd):
-        return self.sizes[mapfd]
-
-    sizes = None
+    def __init__(self):
+        self.sizes = {}         # map fd -> (key size, value size)
 
     def snapshot(self, mapfd):
         ks, vs = self.sizes[mapfd]
@@ -159,6 +183,12 @@ def sf(fmt):
     return fmt if has_prefix(fmt) else "<" + fmt
 
 
+def preamble_of(e):
+    """the Builder's raw preamble in a program under construction (maps
+    may have emitted their own initialisation before it)"""
+    return [i for i in e.opcodes if isinstance(i.opcode, dsl.Raw)][:7]
+
+
 class SiblingBuilder(dsl.Builder):
     """a Builder around one more instance of the program class of `first`
     (same packet layout, same raw preamble)"""
@@ -189,47 +219,85 @@ KF_BEGET = "C09-hashvar-bigendian-python-read"
 
 def hv_values(fmt):
     lo, hi = fmt_range(fmt)
-    return [hi, lo if lo else (hi + 1) >> 1]
+    out = [hi, lo if lo else (hi + 1) >> 1]
+    if has_prefix(fmt):
+        # one value that is no byte palindrome: a swapped read shows
+        out.append(0x0102030405060708 >> (64 - 8 * struct.calcsize(fmt)))
+    return out
 
 
 class HashVarCase:
     """class with one HashMap and variables v0..; program:
-    sel 1+j: v_j = 64-bit packet value; sel 16+4j+k: v_j = v_k;
-    always: every variable is copied to the packet with its own format"""
+    sel 1+j: v_j = packet value; sel 8+j: v_j = packet value + 1;
+    sel 16+4j+k: v_j = v_k; always: every variable is copied to the packet.
 
-    def __init__(self, cfg, backend, with_program=True):
+    Two ways of judging.  Variable sets of plain formats ("cell mode"): the
+    program writes whole 64-bit cells (a 64-bit packet value, another
+    variable's cell), the variable is the low calcsize(fmt) bytes of its
+    cell, and the raw map content is part of the verdict.  Sets containing a
+    format with its own byte order ("value mode"): how such a variable is
+    laid out in its cell is the library's business, so only values are
+    judged - the program writes the number it read from the packet with the
+    variable's own (native) letter, copies only between variables of equal
+    format, and a number written by either side must be read back by both.
+
+    sibling_of: build one more instance of that case's program class"""
+
+    def __init__(self, cfg, backend, with_program=True, sibling_of=None):
         self.cfg = cfg
         self.be = backend
         self.vars = cfg["vars"]
+        self.valmode = any(has_prefix(f) for f, d in self.vars)
         n = len(self.vars)
-        M = HashMap()
-        attrs = {"hmap": M}
-        for j, (f, d) in enumerate(self.vars):
-            attrs[f"v{j}"] = M.globalVar(f, default=d)
-        b = self.b = dsl.Builder(attrs, n_in=1, n_out=n, pv_area=HDR)
+        if sibling_of is None:
+            M = HashMap()
+            attrs = {"hmap": M}
+            for j, (f, d) in enumerate(self.vars):
+                attrs[f"v{j}"] = M.globalVar(f, default=d)
+            b = dsl.Builder(attrs, n_in=1, n_out=n, pv_area=HDR)
+        else:
+            b = SiblingBuilder(sibling_of.b, sibling_of.preamble)
+        self.b = b
         e = self.e = b.e
+        self.preamble = preamble_of(e)
         if with_program:
-            for j, (f, d) in enumerate(self.vars):
-                with guard(b, 1 + j):
-                    setattr(e, f"v{j}", e.mQ[e.r9 + b.in_off])
-                # a computed value: goes through the generator's spill
-                # temporary (Expression.get_address)
-                with guard(b, 8 + j):
-                    setattr(e, f"v{j}", e.mQ[e.r9 + b.in_off] + 1)
-            for j in range(n):
-                for k in range(n):
-                    if j != k:
-                        with guard(b, 16 + 4 * j + k):
-                            setattr(e, f"v{j}", getattr(e, f"v{k}"))
-            for j, (f, d) in enumerate(self.vars):
-                getattr(e, "m" + f)[e.r9 + (b.out_off + 8 * j)] = \
-                    getattr(e, f"v{j}")
+            self.emit()
         b.finish(2)
         e.load()
+        self.closed = False
         self.mapfd = e.__dict__["v0"].fd
         if isinstance(backend, RealBackend):
-            backend.sizes = {self.mapfd: (1, 8)}
+            backend.sizes[self.mapfd] = (1, 8)
         self.keys = None
+
+    def copies(self, j, k):
+        return j != k and (not self.valmode or
+                           self.vars[j][0] == self.vars[k][0])
+
+    def emit(self):
+        b, e, n = self.b, self.e, len(self.vars)
+        for j, (f, d) in enumerate(self.vars):
+            src = getattr(e, "m" + f[-1]) if self.valmode else e.mQ
+            with guard(b, 1 + j):
+                setattr(e, f"v{j}", src[e.r9 + b.in_off])
+            # a computed value: goes through the generator's spill
+            # temporary (Expression.get_address)
+            with guard(b, 8 + j):
+                setattr(e, f"v{j}", src[e.r9 + b.in_off] + 1)
+        for j in range(n):
+            for k in range(n):
+                if self.copies(j, k):
+                    with guard(b, 16 + 4 * j + k):
+                        setattr(e, f"v{j}", getattr(e, f"v{k}"))
+        for j, (f, d) in enumerate(self.vars):
+            getattr(e, "m" + f[-1])[e.r9 + (b.out_off + 8 * j)] = \
+                getattr(e, f"v{j}")
+
+    def close(self):
+        """EBPF.close(): the program's descriptor goes, the maps stay in use
+        (what XDP.run does after attaching)"""
+        self.e.close()
+        self.closed = True
 
     def learn_keys(self):
         """which map entry belongs to which variable (by probing)"""
@@ -263,16 +331,30 @@ class HashVarCase:
         n = len(self.vars)
         out = []
         for j, (f, d) in enumerate(self.vars):
-            for v in hv_values(f):
+            vals = hv_values(f)
+            for v in vals:
                 out.append(("pyset", j, v))
-            for v in hv_values(f):
-                out.append(("progset", j, v & M64))
-            for v in hv_values(f)[:3]:
-                out.append(("progexpr", j, v & M64))
+            if self.closed:
+                continue
+            if self.valmode:
+                hi = fmt_range(f)[1]
+                for v in vals:
+                    out.append(("progset", j, v))
+                for v in vals[:2]:
+                    out.append(("progexpr", j, v - 1 if v == hi else v))
+            else:
+                for v in vals:
+                    out.append(("progset", j, v & M64))
+                for v in vals[:3]:
+                    out.append(("progexpr", j, v & M64))
             for k in range(n):
-                if k != j:
+                if self.copies(j, k):
                     out.append(("progcopy", j, k))
         return out
+
+    def _plant(self, pkt, j, v):
+        f = "<" + self.vars[j][0][-1] if self.valmode else "<Q"
+        struct.pack_into(f, pkt, self.b.in_off, v)
 
     def apply(self, op):
         kind = op[0]
@@ -281,14 +363,16 @@ class HashVarCase:
                 setattr(self.e, f"v{op[1]}", op[2])
                 return ("ok",)
             except Exception as ex:
+                if isinstance(ex, simkernel.SimTrap):
+                    raise
                 return ("exc", type(ex).__name__)
         pkt = bytearray(self.b.pkt_len)
         if kind == "progset":
             pkt[SEL] = 1 + op[1]
-            struct.pack_into("<Q", pkt, self.b.in_off, op[2])
+            self._plant(pkt, op[1], op[2])
         elif kind == "progexpr":
             pkt[SEL] = 8 + op[1]
-            struct.pack_into("<Q", pkt, self.b.in_off, op[2])
+            self._plant(pkt, op[1], op[2])
         else:
             pkt[SEL] = 16 + 4 * op[1] + op[2]
         try:
@@ -304,7 +388,11 @@ class HashVarCase:
             try:
                 py.append(getattr(self.e, f"v{j}"))
             except Exception as ex:
+                if isinstance(ex, simkernel.SimTrap):
+                    raise
                 py.append("exc:" + type(ex).__name__)
+        if self.closed:
+            return py, ("closed",)
         pkt = bytearray(self.b.pkt_len)
         try:
             ret, out = self.be.run(self.e.file_descriptor, pkt)
@@ -316,7 +404,8 @@ class HashVarCase:
 
 
 def hv_expected(vars_, cells, op):
-    """reference: independent 64-bit cells -> (expected result, cells)"""
+    """reference, cell mode: independent 64-bit cells
+    -> (expected result, cells)"""
     cells = list(cells)
     if op[0] == "pyset":
         cells[op[1]] = op[2] & M64
@@ -330,29 +419,67 @@ def hv_expected(vars_, cells, op):
     return ("ret", 2), tuple(cells)
 
 
+def hv_expected_val(vars_, vals, op):
+    """reference, value mode: independent variables holding numbers
+    -> (expected result, values)"""
+    vals = list(vals)
+    if op[0] == "pyset":
+        vals[op[1]] = op[2]
+        return ("ok",), tuple(vals)
+    if op[0] == "progset":
+        vals[op[1]] = op[2]
+    elif op[0] == "progexpr":
+        vals[op[1]] = op[2] + 1
+    else:
+        vals[op[1]] = vals[op[2]]
+    return ("ret", 2), tuple(vals)
+
+
 def hv_decode(fmt, cell):
     raw = struct.pack("<Q", cell)[:struct.calcsize(fmt)]
     return struct.unpack("<" + fmt, raw)[0]
 
 
-def hv_check_observation(vars_, cells, obs):
-    """-> list of (what, expected, observed)"""
+def kf_beget(fmt, exp, ob):
+    """the documented deviation C09-hashvar-bigendian-python-read: the cell
+    holds the number natively (that is how Python's __set__, load() and the
+    program store it and how the program reads it), and Python's __get__
+    decodes the first bytes of that cell with the big-endian format"""
+    if fmt[0] not in ">!" or struct.calcsize(fmt) == 1 or \
+            not isinstance(ob, int) or isinstance(ob, bool) or ob == exp:
+        return False
+    try:
+        raw = struct.pack("<q" if fmt.islower() else "<Q", exp)
+    except struct.error:
+        return False
+    return ob == struct.unpack_from(fmt, raw)[0]
+
+
+def hv_check_observation(vars_, model, obs, valmode=False):
+    """model: the cells (cell mode) or the values (value mode)
+    -> list of (what, expected, observed, known-finding id or None)"""
     py, prog = obs
     bad = []
+    want = [model[j] if valmode else hv_decode(f, model[j])
+            for j, (f, d) in enumerate(vars_)]
     for j, (f, d) in enumerate(vars_):
-        exp = hv_decode(f, cells[j])
-        if py[j] != exp:
-            bad.append((f"Python read of v{j} ({f})", exp, py[j]))
-    if prog[0] == "trap":
-        bad.append(("program run", "returns 2", prog[1]))
+        if py[j] != want[j] or isinstance(py[j], bool):
+            bad.append((f"Python read of v{j} ({f})", want[j], py[j],
+                        KF_BEGET if valmode and kf_beget(f, want[j], py[j])
+                        else None))
+    if prog[0] == "closed":
+        pass
+    elif prog[0] == "trap":
+        bad.append(("program run", "returns 2", prog[1], None))
     elif prog[0] != 2:
-        bad.append(("program return value", 2, prog[0]))
+        bad.append(("program return value", 2, prog[0], None))
     else:
         for j, (f, d) in enumerate(vars_):
-            n = struct.calcsize(f)
-            exp = struct.pack("<Q", cells[j])[:n] + bytes(8 - n)
+            exp = struct.pack("<" + f[-1], want[j])
+            exp += bytes(8 - len(exp))
             if prog[1][j] != exp:
-                bad.append((f"program read of v{j} ({f})", exp, prog[1][j]))
+                bad.append((f"program read of v{j} ({f})", exp, prog[1][j],
+                            None))
     return bad
 
 
@@ -371,8 +498,9 @@ def explore_hashvars(cfg, depth, backend_cls, res, sink, shadow=None):
                 log.append(("rejected", type(ex).__name__))
                 return log
             vars_ = case.vars
+            valmode = case.valmode
             # ---- defaults after load()
-            init = tuple(d & M64 for f, d in vars_)
+            init = tuple(d if valmode else d & M64 for f, d in vars_)
             if case.learn_keys() is None:
                 snap = be.snapshot(case.mapfd)
                 log.append(("nokeys", snap))
@@ -383,23 +511,30 @@ def explore_hashvars(cfg, depth, backend_cls, res, sink, shadow=None):
                 return log
             got = case.cells()
             log.append(("init", got))
-            if got != init and sink:
+            if not valmode and got != init and sink:
                 sink(cj, init, got, "defaults",
                      note="cells after load() differ from the defaults")
             obs = case.observe()
             log.append(("obs0", obs))
-            if sink:
-                for what, exp, ob in hv_check_observation(vars_, got, obs):
+            fresh = False
+            for what, exp, ob, kf in hv_check_observation(
+                    vars_, init if valmode else got, obs, valmode):
+                fresh = fresh or kf is None
+                if sink:
                     sink(dict(cj, state=list(got), seq=[]), exp, ob,
-                         "observe", note=what + " after load()")
-            seen = {got: ()}
-            frontier = [got]
+                         "observe", kf=kf, note=what + " after load()")
+            if valmode and (fresh or None in got):
+                return log
+            # a state: the cells; in value mode (cells, values of the model)
+            st0 = (got, init) if valmode else got
+            seen = {st0: ()}
+            frontier = [st0]
             ops = case.ops()
             for level in range(depth):
                 nxt = []
                 for st in frontier:
                     for op in ops:
-                        case.set_cells(st)
+                        case.set_cells(st[0] if valmode else st)
                         r = case.apply(op)
                         post = case.cells()
                         obs = case.observe()
@@ -409,8 +544,17 @@ def explore_hashvars(cfg, depth, backend_cls, res, sink, shadow=None):
                             res.count("vm_steps", getattr(be, "steps", 0))
                             res.nontrivial.add(core.digest(
                                 [cj["vars"], st, op]))
-                        er, epost = hv_expected(vars_, st, op)
-                        c2 = dict(cj, state=list(st), op=list(op),
+                        if valmode:
+                            er, emod = hv_expected_val(vars_, st[1], op)
+                            epost = "every variable keeps its 8-byte entry"
+                            cells_ok = None not in post
+                            nst = (post, emod)
+                        else:
+                            er, emod = hv_expected(vars_, st, op)
+                            epost = emod
+                            cells_ok = post == emod
+                            nst = post
+                        c2 = dict(cj, state=core.jsonable(st), op=list(op),
                                   seq=[list(o) for o in seen[st]])
                         ok = True
                         if r != er:
@@ -418,17 +562,20 @@ def explore_hashvars(cfg, depth, backend_cls, res, sink, shadow=None):
                             if sink:
                                 sink(c2, er, r, "op-result",
                                      note=f"result of {op}")
-                        if post != epost:
+                        if not cells_ok:
                             ok = False
                             if sink:
                                 sink(c2, epost, post, "cells",
                                      note=f"cells after {op}")
-                        elif sink:
-                            for what, exp, ob in hv_check_observation(
-                                    vars_, post, obs):
-                                ok = False
-                                sink(c2, exp, ob, "observe",
-                                     note=f"{what} after {op}")
+                        else:
+                            for what, exp, ob, kf in hv_check_observation(
+                                    vars_, emod if valmode else post, obs,
+                                    valmode):
+                                if kf is None:
+                                    ok = False
+                                if sink:
+                                    sink(c2, exp, ob, "observe", kf=kf,
+                                         note=f"{what} after {op}")
                         if res is not None:
                             res.outcomes.add(("hv", op[0], r[0], ok))
                             if level == 1 and op[0] == "progcopy":
@@ -437,9 +584,9 @@ def explore_hashvars(cfg, depth, backend_cls, res, sink, shadow=None):
                                                 op=list(op),
                                                 cells_after=list(post)),
                                            limit=5)
-                        if ok and post not in seen:
-                            seen[post] = seen[st] + (op,)
-                            nxt.append(post)
+                        if ok and nst not in seen:
+                            seen[nst] = seen[st] + (op,)
+                            nxt.append(nst)
                 frontier = nxt
             if res is not None:
                 res.count("states", len(seen))
@@ -501,78 +648,106 @@ def universe(fmts, which):
 
 
 def enc(fmts, tup):
-    return b"".join(struct.pack("<" + f, v) for f, v in zip(fmts, tup))
+    return b"".join(struct.pack(sf(f), v) for f, v in zip(fmts, tup))
 
 
 def dec(fmts, raw):
     out, off = [], 0
     for f in fmts:
-        out.append(struct.unpack_from("<" + f, raw, off)[0])
+        out.append(struct.unpack_from(sf(f), raw, off)[0])
         off += struct.calcsize(f)
     return tuple(out)
 
 
 class DictCase:
-    OPS_PY = ("pset", "pget", "ppop", "ppopd", "pdel", "piter", "pvalues")
+    """one Dict declaration in a program class.  The packet carries numbers
+    in native letters; the program moves them into / out of the key and value
+    members with the members' own formats (so a member with its own byte
+    order is stored in that order by both sides).
 
-    def __init__(self, cfg, backend, with_program=True):
+    sibling_of: build one more instance of that case's program class"""
+    OPS_PY = ("pset", "pget", "ppop", "ppopd", "pdel", "piter", "pvalues")
+    # operations that first collect what the iteration hands out and only
+    # then use it
+    COLLECT = ("plist", "pkeys", "psorted", "plitems", "plookupall",
+               "pdelall", "ppopall")
+
+    def __init__(self, cfg, backend, with_program=True, sibling_of=None):
         self.cfg = cfg
         self.be = backend
         kf, vf = self.kf, self.vf = tuple(cfg["key"]), tuple(cfg["value"])
         self.knames = [f"k{i}" for i in range(len(kf))]
         self.vnames = [f"m{i}" for i in range(len(vf))]
-        self.Key = type("Key", (Structure,),
-                        {n: Member(f) for n, f in zip(self.knames, kf)})
-        self.Value = type("Value", (Structure,),
-                          {n: Member(f) for n, f in zip(self.vnames, vf)})
-        attrs = {"ht": Dict(key=self.Key, value=self.Value,
-                            size=cfg["size"], lru=cfg["lru"])}
-        b = self.b = dsl.Builder(attrs, n_in=6, n_out=5, pv_area=HDR)
+        if sibling_of is None:
+            self.Key = type("Key", (Structure,),
+                            {n: Member(f) for n, f in zip(self.knames, kf)})
+            self.Value = type("Value", (Structure,),
+                              {n: Member(f) for n, f in zip(self.vnames, vf)})
+            attrs = {"ht": Dict(key=self.Key, value=self.Value,
+                                size=cfg["size"], lru=cfg["lru"])}
+            b = dsl.Builder(attrs, n_in=6, n_out=5, pv_area=HDR)
+        else:
+            self.Key, self.Value = sibling_of.Key, sibling_of.Value
+            b = SiblingBuilder(sibling_of.b, sibling_of.preamble)
+        self.b = b
         e = self.e = b.e
+        self.preamble = preamble_of(e)
         self.keys = universe(kf, (0, 1, 2))
         self.values = universe(vf, (0, 2))
-        self.can_add = vf[0] in "IiQq"
+        self.can_add = vf[0][-1] in "IiQq"
         if with_program:
-            d = e.ht
-            for i, (n, f) in enumerate(zip(self.knames, kf)):
-                setattr(d.key, n, getattr(e, "m" + f)[e.r9 + (b.in_off + 8 * i)])
-            for sel, flags in ((1, UpdateFlags.ANY), (2, UpdateFlags.NOEXIST),
-                               (3, UpdateFlags.EXIST)):
-                with guard(b, sel):
-                    for i, (n, f) in enumerate(zip(self.vnames, vf)):
-                        setattr(d.value, n, getattr(e, "m" + f)[
-                            e.r9 + (b.in_off + 8 * (3 + i))])
-                    d.update(flags)
-                    b.out_reg(0, 0)
-            with guard(b, 4):
-                with d.lookup() as (value, Else):
-                    for i, (n, f) in enumerate(zip(self.vnames, vf)):
-                        getattr(e, "m" + f)[e.r9 + (b.out_off + 8 * (2 + i))] = \
-                            getattr(value, n)
-                    e.mB[e.r9 + (b.out_off + 8)] = 1
-                with Else:
-                    e.mB[e.r9 + (b.out_off + 8)] = 2
-            with guard(b, 5):
-                with d.lookup() as (value, Else):
-                    for i, (n, f) in enumerate(zip(self.vnames, vf)):
-                        setattr(value, n, getattr(e, "m" + f)[
-                            e.r9 + (b.in_off + 8 * (3 + i))])
-                    e.mB[e.r9 + (b.out_off + 8)] = 1
-                with Else:
-                    e.mB[e.r9 + (b.out_off + 8)] = 2
-            if self.can_add:
-                with guard(b, 6):
-                    with d.lookup() as (value, Else):
-                        value.m0 += 3
-                        e.mB[e.r9 + (b.out_off + 8)] = 1
-                    with Else:
-                        e.mB[e.r9 + (b.out_off + 8)] = 2
+            self.emit()
         b.finish(2)
         e.load()
+        self.closed = False
         self.mapfd = e.ht.fd
         if isinstance(backend, RealBackend):
-            backend.sizes = {self.mapfd: (len(enc(kf, self.keys[0])),
-                                          len(enc(vf, self.values[0])))}
+            backend.sizes[self.mapfd] = (len(enc(kf, self.keys[0])),
+                                         len(enc(vf, self.values[0])))
+
+    def emit(self):
+        b, e, kf, vf = self.b, self.e, self.kf, self.vf
+        d = e.ht
+        for i, (n, f) in enumerate(zip(self.knames, kf)):
+            setattr(d.key, n, getattr(e, "m" + f[-1])[
+                e.r9 + (b.in_off + 8 * i)])
+        for sel, flags in ((1, UpdateFlags.ANY), (2, UpdateFlags.NOEXIST),
+                           (3, UpdateFlags.EXIST)):
+            with guard(b, sel):
+                for i, (n, f) in enumerate(zip(self.vnames, vf)):
+                    setattr(d.value, n, getattr(e, "m" + f[-1])[
+                        e.r9 + (b.in_off + 8 * (3 + i))])
+                d.update(flags)
+                b.out_reg(0, 0)
+        with guard(b, 4):
+            with d.lookup() as (value, Else):
+                for i, (n, f) in enumerate(zip(self.vnames, vf)):
+                    getattr(e, "m" + f[-1])[
+                        e.r9 + (b.out_off + 8 * (2 + i))] = getattr(value, n)
+                e.mB[e.r9 + (b.out_off + 8)] = 1
+            with Else:
+                e.mB[e.r9 + (b.out_off + 8)] = 2
+        with guard(b, 5):
+            with d.lookup() as (value, Else):
+                for i, (n, f) in enumerate(zip(self.vnames, vf)):
+                    setattr(value, n, getattr(e, "m" + f[-1])[
+                        e.r9 + (b.in_off + 8 * (3 + i))])
+                e.mB[e.r9 + (b.out_off + 8)] = 1
+            with Else:
+                e.mB[e.r9 + (b.out_off + 8)] = 2
+        if self.can_add:
+            with guard(b, 6):
+                with d.lookup() as (value, Else):
+                    value.m0 += 3
+                    e.mB[e.r9 + (b.out_off + 8)] = 1
+                with Else:
+                    e.mB[e.r9 + (b.out_off + 8)] = 2
+
+    def close(self):
+        """EBPF.close(): the program's descriptor goes, the map stays in use
+        from Python (what XDP.run does after attaching)"""
+        self.e.close()
+        self.closed = True
 
     def ops(self, python_only=False):
         out = []
@@ -585,7 +760,8 @@ class DictCase:
         out += [("pitems",), ("ppopitem",), ("pclear",)]
         for k in range(3):
             out += [("pgetd", k), ("pin", k), ("psetdef", k, k % 2)]
-        if python_only:
+        out += [(c,) for c in self.COLLECT]
+        if python_only or self.closed:
             return out
         for k in range(3):
             for v in range(2):
@@ -597,10 +773,23 @@ class DictCase:
                 out.append(("modadd", k))
         return out
 
+    def ops_small(self):
+        """the reduced alphabet of the several-instances searches: two keys,
+        one value each, both sides, one collecting operation"""
+        out = []
+        for k in (0, 1):
+            out += [("pset", k, k), ("pget", k), ("pdel", k)]
+        out += [("plitems",), ("ppopitem",)]
+        if not self.closed:
+            for k in (0, 1):
+                out += [("upd", 1, k, 1 - k), ("lookup", k), ("modify", k, k)]
+        return out
+
     @staticmethod
     def readonly(op):
         return op[0] in ("pget", "piter", "pvalues", "lookup", "pitems",
-                         "pgetd", "pin")
+                         "pgetd", "pin", "plist", "pkeys", "psorted",
+                         "plitems", "plookupall")
 
     def _key(self, k):
         o = self.Key()
@@ -658,6 +847,33 @@ class DictCase:
             if kind == "psetdef":
                 return ("ok", self._vt(d.setdefault(self._key(op[1]),
                                                     self._value(op[2]))))
+            # ---- collect first, use afterwards
+            if kind == "plist":
+                ks = list(d)
+                return ("ok", tuple(sorted(self._kt(k) for k in ks)))
+            if kind == "pkeys":
+                ks = list(d.keys())
+                return ("ok", tuple(sorted(self._kt(k) for k in ks)))
+            if kind == "psorted":
+                ks = sorted(d, key=self._kt)
+                return ("ok", tuple(self._kt(k) for k in ks))
+            if kind == "plitems":
+                its = list(d.items())
+                return ("ok", tuple(sorted((self._kt(k), self._vt(v))
+                                           for k, v in its)))
+            if kind == "plookupall":
+                ks = list(d)
+                return ("ok", tuple(sorted((self._kt(k), self._vt(d[k]))
+                                           for k in ks)))
+            if kind == "pdelall":
+                ks = list(d)
+                for k in ks:
+                    del d[k]
+                return ("ok", len(ks))
+            if kind == "ppopall":
+                ks = [k for k in d]
+                return ("ok", tuple(sorted((self._kt(k), self._vt(d.pop(k)))
+                                           for k in ks)))
         except Exception as ex:
             if isinstance(ex, simkernel.SimTrap):
                 raise
@@ -666,11 +882,11 @@ class DictCase:
         pkt = bytearray(b.pkt_len)
         key = self.keys[op[2] if kind == "upd" else op[1]]
         for i, (f, v) in enumerate(zip(self.kf, key)):
-            struct.pack_into("<" + f, pkt, b.in_off + 8 * i, v)
+            struct.pack_into("<" + f[-1], pkt, b.in_off + 8 * i, v)
         if kind in ("upd", "modify"):
             val = self.values[op[3] if kind == "upd" else op[2]]
             for i, (f, v) in enumerate(zip(self.vf, val)):
-                struct.pack_into("<" + f, pkt, b.in_off + 8 * (3 + i), v)
+                struct.pack_into("<" + f[-1], pkt, b.in_off + 8 * (3 + i), v)
         pkt[SEL] = {"upd": op[1] if kind == "upd" else 0, "lookup": 4,
                     "modify": 5, "modadd": 6}[kind]
         try:
@@ -684,7 +900,8 @@ class DictCase:
         flag = out[b.out_off + 8]
         if kind == "lookup" and flag == 1:
             return ("found", tuple(
-                struct.unpack_from("<" + f, out, b.out_off + 8 * (2 + i))[0]
+                struct.unpack_from("<" + f[-1], out,
+                                   b.out_off + 8 * (2 + i))[0]
                 for i, f in enumerate(self.vf)))
         return ("found",) if flag == 1 else ("else",) if flag == 2 \
             else ("flag", flag)
@@ -734,9 +951,16 @@ def dict_expected1(case, pre, op, nolimit=False):
         if kind == "piter":
             return ("ok", tuple(sorted(dec(kf, k) for k in ref))), ref, False
         return ("ok", tuple(sorted(dec(vf, v) for v in ref.values()))), ref, False
-    if kind == "pitems":
+    if kind in ("plist", "pkeys", "psorted"):
+        return ("ok", tuple(sorted(dec(kf, k) for k in ref))), ref, False
+    if kind in ("pitems", "plitems", "plookupall"):
         return ("ok", tuple(sorted((dec(kf, k), dec(vf, v))
                                    for k, v in ref.items()))), ref, False
+    if kind == "pdelall":
+        return ("ok", len(ref)), {}, False
+    if kind == "ppopall":
+        return ("ok", tuple(sorted((dec(kf, k), dec(vf, v))
+                                   for k, v in ref.items()))), {}, False
     if kind == "ppopitem":      # only reached for an empty map
         return ("exc", "KeyError"), ref, False
     if kind == "pclear":
@@ -803,7 +1027,7 @@ def dict_expected1(case, pre, op, nolimit=False):
         t = list(dec(vf, ref[kb]))
         bits = struct.calcsize(vf[0]) * 8
         raw = (t[0] + 3) & ((1 << bits) - 1)
-        t[0] = struct.unpack("<" + vf[0],
+        t[0] = struct.unpack("<" + vf[0][-1],
                              raw.to_bytes(bits // 8, "little"))[0]
         ref[kb] = enc(vf, t)
         return ("found",), ref, False
@@ -843,6 +1067,12 @@ def explore_dict(cfg, depth, backend_cls, res, sink, python_only=False,
                         if level == depth and not case.readonly(op):
                             continue
                         be.restore(case.mapfd, st)
+                        if cfg["lru"] and res is None and \
+                                canon(be.snapshot(case.mapfd)) != st:
+                            # real kernel: an LRU map may evict before it
+                            # holds max_entries, the state is not reachable
+                            # by writing it
+                            continue
                         r = case.apply(op)
                         post = canon(be.snapshot(case.mapfd))
                         if on_edge:
@@ -908,6 +1138,280 @@ def explore_dict(cfg, depth, backend_cls, res, sink, python_only=False,
 
 
 # ====================================================================
+# several program instances in one process
+# ====================================================================
+# who is alive while the operations are enumerated:
+#   same2 / same3   two / three instances of one program class
+#   diff2           one instance each of two program classes (built from the
+#                   same declaration, sharing no object)
+#   closed-first    an instance that was close()d (its maps stay in use from
+#                   Python) and a later instance of the same class
+#   reborn          an instance created after an earlier one of the same
+#                   class was used, close()d and garbage-collected
+#   dropped         the same, the earlier one never closed
+PLANS = ("same2", "same3", "diff2", "closed-first", "reborn", "dropped")
+
+
+class MultiDict:
+    what = "dict"
+
+    @staticmethod
+    def cfgj(cfg):
+        return dict(key=list(cfg["key"]), value=list(cfg["value"]),
+                    size=cfg["size"], lru=cfg["lru"])
+
+    @staticmethod
+    def make(cfg, be, sibling_of=None):
+        return DictCase(cfg, be, sibling_of=sibling_of)
+
+    @staticmethod
+    def ready(case):
+        return True
+
+    @staticmethod
+    def snap(case):
+        s = case.be.snapshot(case.mapfd)
+        return tuple(s) if case.be.ordered(case.mapfd) else tuple(sorted(s))
+
+    @staticmethod
+    def restore(case, st):
+        case.be.restore(case.mapfd, st)
+
+    @staticmethod
+    def initial(case):
+        return ()
+
+    @staticmethod
+    def ops(case):
+        return case.ops_small()
+
+    readonly = staticmethod(DictCase.readonly)
+
+    @staticmethod
+    def prefix(case):
+        return [("pset", 0, 0), ("upd", 1, 1, 1)]
+
+    @staticmethod
+    def judge(case, pre, op, r, post):
+        """-> (ok, expected for the report, several outcomes acceptable)"""
+        alts = dict_expected(case, pre, op)
+        ok = any(r == ar and dict(post) == aref and
+                 len(dict(post)) == len(post) for ar, aref in alts)
+        return ok, [[a, sorted(c.items())] for a, c in alts][:3], \
+            len(alts) > 1
+
+    @staticmethod
+    def observe(case, model):
+        return None, []
+
+
+class MultiHV:
+    what = "hashvars"
+
+    @staticmethod
+    def cfgj(cfg):
+        return dict(vars=[list(v) for v in cfg["vars"]])
+
+    @staticmethod
+    def make(cfg, be, sibling_of=None):
+        return HashVarCase(cfg, be, sibling_of=sibling_of)
+
+    @staticmethod
+    def ready(case):
+        return case.learn_keys() is not None
+
+    @staticmethod
+    def snap(case):
+        return case.cells()
+
+    @staticmethod
+    def restore(case, st):
+        case.set_cells(st)
+
+    @staticmethod
+    def initial(case):
+        return tuple(d & M64 for f, d in case.vars)
+
+    @staticmethod
+    def ops(case):
+        return case.ops()
+
+    @staticmethod
+    def readonly(op):
+        return False
+
+    @staticmethod
+    def prefix(case):
+        j = len(case.vars) - 1
+        return [("pyset", 0, hv_values(case.vars[0][0])[0]),
+                ("progset", j, hv_values(case.vars[j][0])[1] & M64)]
+
+    @staticmethod
+    def judge(case, pre, op, r, post):
+        er, epost = hv_expected(case.vars, pre, op)
+        return r == er and post == epost, [er, list(epost)], False
+
+    @staticmethod
+    def observe(case, model):
+        obs = case.observe()
+        if None in model:
+            return obs, []
+        return obs, hv_check_observation(case.vars, model, obs)
+
+
+MULTI = {"dict": MultiDict, "hashvars": MultiHV}
+
+
+def build_plan(ad, cfg, plan, be):
+    """-> the live instances, in the order of their creation"""
+    first = ad.make(cfg, be)
+    if plan == "same2":
+        return [first, ad.make(cfg, be, sibling_of=first)]
+    if plan == "same3":
+        second = ad.make(cfg, be, sibling_of=first)
+        return [first, second, ad.make(cfg, be, sibling_of=first)]
+    if plan == "diff2":
+        return [first, ad.make(cfg, be)]
+    if plan == "closed-first":
+        first.close()
+        return [first, ad.make(cfg, be, sibling_of=first)]
+    if plan in ("reborn", "dropped"):
+        if not ad.ready(first):
+            return [first]
+        for op in ad.prefix(first):
+            first.apply(op)
+        if plan == "reborn":
+            first.close()
+        first.e = first.b.e = None      # the instance is gone ...
+        gc.collect()
+        return [ad.make(cfg, be, sibling_of=first)]     # ... long live the next
+    raise core.Internal(f"unknown plan {plan}")
+
+
+def explore_multi(what, cfg, plan, depth, backend_cls, res, sink):
+    """breadth-first search over the interleavings of the instances'
+    operations; a state is the tuple of the instances' map contents, every
+    instance has its own reference model and must not see the others"""
+    ad = MULTI[what]
+    be = backend_cls()
+    log = []
+    cj = dict(kind="multi", what=what, plan=plan, **ad.cfgj(cfg))
+    try:
+        with be.context():
+            try:
+                cases = build_plan(ad, cfg, plan, be)
+            except Exception as ex:
+                if isinstance(ex, (simkernel.SimTrap, core.Internal)):
+                    raise
+                log.append(("rejected", type(ex).__name__))
+                return log
+            n = len(cases)
+            # the log is what the differential compares: no recency order
+            lf = (lambda s: tuple(tuple(sorted(x)) for x in s)) \
+                if what == "dict" else (lambda s: s)
+            for i, c in enumerate(cases):
+                if not ad.ready(c):
+                    log.append(("nokeys", i))
+                    if sink:
+                        sink(dict(cj, inst=i), "one map entry per variable",
+                             be.snapshot(c.mapfd), "cells-not-independent",
+                             note=f"instance {i}: cannot attribute one map "
+                             "entry per variable")
+                    return log
+            init = tuple(ad.snap(c) for c in cases)
+            want = tuple(ad.initial(c) for c in cases)
+            log.append(("init", init))
+            if init != want:
+                if sink:
+                    sink(cj, [list(w) for w in want], [list(s) for s in init],
+                         "multi-init", note="map contents of the instances "
+                         f"right after load() (plan {plan})")
+                return log
+            for i, c in enumerate(cases):
+                obs, bad = ad.observe(c, init[i])
+                log.append(("obs0", i, obs))
+                for whatbad, exp, ob, kf in bad:
+                    if sink:
+                        sink(dict(cj, inst=i, state=core.jsonable(init),
+                                  seq=[]), exp, ob, "multi-observe", kf=kf,
+                             note=f"instance {i}: {whatbad} after load()")
+            ops = [(i, op) for i, c in enumerate(cases) for op in ad.ops(c)]
+            seen = {init: ()}
+            frontier = [init]
+            for level in range(depth + 1):
+                nxt = []
+                for st in frontier:
+                    for i, op in ops:
+                        if level == depth and not ad.readonly(op):
+                            continue
+                        c = cases[i]
+                        for j in range(n):
+                            ad.restore(cases[j], st[j])
+                        c2 = dict(cj, state=core.jsonable(st), inst=i,
+                                  op=list(op),
+                                  seq=[[k, list(o)] for k, o in seen[st]])
+                        now = tuple(ad.snap(x) for x in cases)
+                        if now != st:
+                            log.append((lf(st), (i, op), "establish", lf(now)))
+                            if sink:
+                                sink(c2, core.jsonable(st),
+                                     core.jsonable(now), "multi-establish",
+                                     note="writing each instance's map does "
+                                     "not establish the state: the instances "
+                                     "do not have maps of their own")
+                            break
+                        r = c.apply(op)
+                        post = tuple(ad.snap(x) for x in cases)
+                        ok, exp, loose = ad.judge(c, st[i], op, r, post[i])
+                        others = all(post[j] == st[j]
+                                     for j in range(n) if j != i)
+                        log.append((lf(st), (i, op), r,
+                                    "loose" if loose else lf(post)))
+                        if not ok and sink:
+                            sink(c2, exp, [r, core.jsonable(post[i])],
+                                 "multi-op", note=f"instance {i}: result / "
+                                 f"map content after {op}")
+                        if not others and sink:
+                            sink(c2, core.jsonable(st), core.jsonable(post),
+                                 "multi-other", note=f"{op} on instance {i} "
+                                 "changed the map of another instance")
+                        ok = ok and others
+                        if ok:
+                            for j in range(n):
+                                obs, bad = ad.observe(cases[j], post[j])
+                                if obs is not None:
+                                    log.append(("obs", j, obs))
+                                for whatbad, e2, ob, kf in bad:
+                                    ok = False
+                                    if sink:
+                                        sink(c2, e2, ob, "multi-observe",
+                                             kf=kf, note=f"instance {j}: "
+                                             f"{whatbad} after {op} on "
+                                             f"instance {i}")
+                        if res is not None:
+                            res.count("transitions")
+                            res.count("multi_transitions")
+                            res.count("vm_steps", getattr(be, "steps", 0))
+                            be.steps = 0
+                            res.nontrivial.add(core.digest(
+                                [cj, core.jsonable(st), i, op]))
+                            res.outcomes.add(("multi", what, plan, op[0],
+                                              r[0], ok))
+                            if level == 1 and i == n - 1 and \
+                                    op[0] in ("upd", "progset"):
+                                res.sample(dict(c2, result=r), limit=2)
+                        if ok and post not in seen:
+                            seen[post] = seen[st] + ((i, op),)
+                            nxt.append(post)
+                frontier = nxt
+            if res is not None:
+                res.count("states", len(seen))
+    finally:
+        be.close()
+    return log
+
+
+# ====================================================================
 # configurations
 # ====================================================================
 def hashvar_configs(ctx):
@@ -932,13 +1436,65 @@ def hashvar_configs(ctx):
             for s in (1, 2):
                 out.append([(HFMT[i], 5), (HFMT[(i + s) % 6], 0),
                             (HFMT[(i + 2 * s + 1) % 6], 5)])
+    # ---- formats with their own byte order (value mode)
+    X = XHFMT
+    out += [[(f, 5)] for f in X]
+    out += [[(">H", 0)], [("!h", -1)], [(">q", -1)]]
+    out += [[(">H", 5), (">H", 0)], [(">I", 0), ("I", 5)],
+            [("!h", 5), ("<h", 0)], [(">q", 5), (">q", 0)],
+            [(">H", 5), ("B", 0), (">H", 0)]]
+    if not ctx.quick:
+        out += [[(f, d)] for f in X for d in (0, -1)]
+        for i, f in enumerate(X):
+            out.append([(f, 5), (f, 0)])
+            out.append([(f, 0), (X[(i + 4) % len(X)], 5)])
+            out.append([(f, 5), (HFMT[i % 6], 0), (f, 0)])
     if ctx.seed:
         import random
         rnd = random.Random(ctx.seed)
         for _ in range(4):
             out.append([(rnd.choice(HFMT), rnd.choice([0, 5]))
                         for _ in range(rnd.randint(2, 3))])
+        for _ in range(3):
+            out.append([(rnd.choice(X), rnd.choice([0, 5]))
+                        for _ in range(rnd.randint(1, 2))])
     return [dict(vars=v) for v in out]
+
+
+# Dict declarations whose members carry their own byte order
+XDICTS = [
+    ((">H",), (">q",)), ((">I", "<H", "B"), ("!h", ">I")),
+    (("<Q",), ("<i", ">H", "!B")), (("!I", "!I"), (">Q", "<q")),
+    (("B", ">H"), (">i",)), ((">Q",), ("!I", "B")),
+    (("!H", "!H", ">I"), (">h", "<H", "!i")), (("<I",), ("<q",)),
+    ((">q",), (">I", ">I")), (("B", "!B", ">H"), ("!q",)),
+]
+
+
+def multi_configs(ctx):
+    """(what, configuration, plan) of the several-instances searches"""
+    dicts = [dict(key=("I", "B"), value=("q", "I", "B"), size=31, lru=False),
+             dict(key=("B",), value=("h",), size=2, lru=False),
+             dict(key=("H", "H"), value=("Q",), size=31, lru=True)]
+    hvs = [[("I", 5)], [("q", -1), ("B", 0)], [("h", 5), ("Q", 0)]]
+    if not ctx.quick:
+        dicts += [dict(key=("Q",), value=("I", "H"), size=2, lru=True),
+                  dict(key=(">H", "B"), value=(">q",), size=31, lru=False),
+                  dict(key=("B", "B", "H"), value=("B",), size=31, lru=False)]
+        hvs += [[("Q", 0)], [("B", 5), ("i", 5), ("h", 0)],
+                [("i", -1), ("I", 0)]]
+    if ctx.seed:
+        lists = packed_lists()
+        ks = lists[(5 * ctx.seed) % len(lists)]
+        vs = lists[(11 * ctx.seed + 2) % len(lists)]
+        dicts.append(dict(key=key_fmts(ks), value=value_fmts(vs), size=31,
+                          lru=False))
+        hvs.append([(HFMT[ctx.seed % 6], 5), (HFMT[(ctx.seed + 2) % 6], 0)])
+    out = []
+    for plan in PLANS:
+        out += [("dict", c, plan) for c in dicts]
+        out += [("hashvars", dict(vars=v), plan) for v in hvs]
+    return out
 
 
 def dict_configs(ctx):
@@ -961,6 +1517,10 @@ def dict_configs(ctx):
     else:
         out.append(dict(key=("I", "B"), value=("q", "I", "B"), size=2,
                         lru=False))
+    xd = XDICTS[:4] if ctx.quick else XDICTS
+    for i, (k, v) in enumerate(xd):
+        size, lru = combos[(i + ctx.seed) % 4]
+        out.append(dict(key=k, value=v, size=size, lru=lru))
     return out
 
 
@@ -986,7 +1546,15 @@ def make_sink(res, cap=3):
 def work(item, res):
     kind, cfg, depth, differential = item
     sink = make_sink(res)
-    fn = explore_hashvars if kind == "hv" else explore_dict
+    if kind == "multi":
+        what, mcfg, plan = cfg
+
+        def fn(_, depth, backend_cls, res, sink):
+            return explore_multi(what, mcfg, plan, depth, backend_cls, res,
+                                 sink)
+        cfg = dict(mcfg, lru=True)      # compared edge by edge where both
+    else:                               # backends have the edge
+        fn = explore_hashvars if kind == "hv" else explore_dict
     log = fn(cfg, depth, SimBackend, res, sink)
     res.count("evaluations")
     if log and log[0][0] == "rejected":
@@ -997,6 +1565,7 @@ def work(item, res):
     if differential and kern.available() and not sink.fresh:
         rlog = fn(cfg, depth, RealBackend, None, None)
         compare_logs(cfg, kind, log, rlog, res)
+        res.count("configurations_on_real_kernel")
 
 
 def compare_logs(cfg, kind, log, rlog, res):
@@ -1017,7 +1586,9 @@ def compare_logs(cfg, kind, log, rlog, res):
         for ent in lg:
             if ent[0] in ("init", "rejected"):
                 out[ent[0]] = ent[1:]
-            elif ent[3] != "lru-full-update":
+            elif ent[0] in ("obs0", "obs", "nokeys"):
+                out.setdefault(("obs", ent[1]), set()).add(repr(ent[2:]))
+            elif ent[3] not in ("lru-full-update", "loose"):
                 out.setdefault((ent[0], ent[1]), set()).add((ent[2], ent[3]))
         return out
     ts, tr = table(log), table(rlog)
@@ -1043,12 +1614,24 @@ def run(ctx):
     for i, cfg in enumerate(hv):
         items.append(("hv", cfg, depth, i % 3 == 0))
     for i, cfg in enumerate(dc):
-        items.append(("dict", cfg, depth, i % 4 == 0))
+        # (a real LRU map of two entries evicts before it is full, and not
+        # reproducibly: no edge-by-edge comparison there)
+        items.append(("dict", cfg, depth, i % 4 == 0 and
+                      not (cfg["lru"] and cfg["size"] < 31)))
+    mc_ = multi_configs(ctx)
+    mdepth = 2 if ctx.quick else 3
+    for i, m in enumerate(mc_):
+        # no close() on the real kernel (descriptor numbers of the worker
+        # process are none of the check's business)
+        items.append(("multi", m, mdepth,
+                      m[2] in ("same2", "diff2", "same3") and i % 2 == 0))
     res = core.pmap(ctx, work, items, chunk=1)
     res.cov["configurations_run"] = res.cov.pop("evaluations", 0)
     res.cov["evaluations"] = res.cov.get("transitions", 0)
-    res.cov["configurations"] = dict(hashvars=len(hv), dicts=len(dc))
+    res.cov["configurations"] = dict(hashvars=len(hv), dicts=len(dc),
+                                     several_instances=len(mc_))
     res.cov["bound_completed"] = depth
+    res.cov["bound_several_instances"] = mdepth
     res.cov["kernel_available"] = kern.available()
     res.cov["simkernel_selftest"] = st
     res.sample(dict(kind="dict", key=["I", "B"], value=["q", "I", "B"],
@@ -1067,7 +1650,28 @@ def run(ctx):
         "LRU maps: which entries are evicted by an insertion into a full "
         "map is not specified; the inserted entry must be present, all "
         "other entries must be unchanged survivors",
-        "iteration order of a Dict is unspecified (compared sorted)",
+        "iteration order of a Dict is unspecified (compared sorted); the "
+        "keys an iteration hands out are values of their own: collected "
+        "first and used afterwards (list(d), sorted(d), list(d.items()), "
+        "then d[k] / del d[k] / d.pop(k) for every collected k) they must "
+        "denote the entries the map had",
+        "a hash-map variable whose format carries its own byte order is "
+        "judged on values only: the program writes the number it read from "
+        "the packet with the plain letter of the format, copies only "
+        "between variables of equal format, and whatever number either "
+        "side wrote (or the default) must be read back by both; how the "
+        "cell is laid out is left to the library.  Dict members with their "
+        "own byte order are stored in that order (reference: struct.pack "
+        "with the member's format)",
+        "several instances (of one program class or of two) in one process "
+        "each own their maps: an operation through one instance changes "
+        "nothing another instance sees, a fresh instance starts with an "
+        "empty Dict / the defaults whatever earlier instances did; after "
+        "EBPF.close() the maps stay usable from Python (XDP.run() closes "
+        "right after attaching).  If the library refuses to create a "
+        "further instance with an exception this is counted, not alarmed. "
+        "These searches use a reduced alphabet (two keys, plain formats for "
+        "hash-map variables) and depth 2 (thorough: 3)",
         "states are re-established by writing the kernel map directly "
         "(TheDict and the descriptors keep no state of their own besides "
         "the map descriptor), so equal map contents have equal futures"]
@@ -1079,18 +1683,26 @@ def replay(ctx, rep):
     sink = make_sink(res, cap=10 ** 9)
     c = rep["case"]
     depth = 3 if ctx.quick else 4
-    if c["kind"] == "hashvars":
+    if c["kind"] == "multi":
+        if c["what"] == "dict":
+            cfg = dict(key=tuple(c["key"]), value=tuple(c["value"]),
+                       size=c["size"], lru=c["lru"])
+        else:
+            cfg = dict(vars=[tuple(v) for v in c["vars"]])
+        log = explore_multi(c["what"], cfg, c["plan"],
+                            2 if ctx.quick else 3, SimBackend, res, sink)
+    elif c["kind"] == "hashvars":
         cfg = dict(vars=[tuple(v) for v in c["vars"]])
         log = explore_hashvars(cfg, depth, SimBackend, res, sink)
     else:
         cfg = dict(key=tuple(c["key"]), value=tuple(c["value"]),
                    size=c["size"], lru=c["lru"])
         log = explore_dict(cfg, depth, SimBackend, res, sink)
-    want = core.jsonable((c.get("state"), c.get("op")))
+    want = core.jsonable((c.get("state"), c.get("op"), c.get("inst")))
     print("configuration:", cfg, "-", len(log), "edges explored")
     out = [v for v in res.violations
-           if core.jsonable((v["case"].get("state"),
-                             v["case"].get("op"))) == want]
+           if core.jsonable((v["case"].get("state"), v["case"].get("op"),
+                             v["case"].get("inst"))) == want]
     for v in out[:5]:
         print("  after", v["case"].get("seq"), "op", v["case"].get("op"),
               "expected", v["expected"], "observed", v["observed"])
